@@ -9,19 +9,19 @@ mod h {
 
     const N: usize = 3;
 
-    fn any_graph() -> ([[bool; N]; N], BTreeMap<ResolvedName, BTreeSet<ResolvedName>>) {
-        let adj: [[bool; N]; N] = kani::any();
+    /// the dependency graph with edge u -> v iff bit (3u + v) of `mask` is set; items are inserted
+    /// starting from `first` (the declaration order must not matter)
+    fn graph(mask: u16, first: usize) -> ([[bool; N]; N], BTreeMap<ResolvedName, BTreeSet<ResolvedName>>) {
+        let mut adj = [[false; N]; N];
         let mut m = BTreeMap::new();
-        // vertices are inserted in an arbitrary order (the declaration order must not matter)
-        let first: usize = kani::any();
-        kani::assume(first < N);
         let mut t = 0;
         while t < N {
             let u = (first + t) % N;
             let mut s = BTreeSet::new();
             let mut v = 0;
             while v < N {
-                if adj[u][v] {
+                if (mask >> (3 * u + v)) & 1 == 1 {
+                    adj[u][v] = true;
                     s.insert(ResolvedName(v as u8));
                 }
                 v += 1;
@@ -63,9 +63,9 @@ mod h {
         let mut pos = usize::MAX;
         let mut count = 0;
         let mut c = 0;
-        while c < components.len() && c < N + 1 {
+        while c < N + 1 {
             let mut e = 0;
-            while e < components[c].len() && e < N + 1 {
+            while c < components.len() && e < N + 1 && e < components[c].len() {
                 if components[c][e] == ResolvedName(v as u8) {
                     pos = c;
                     count += 1;
@@ -77,37 +77,110 @@ mod h {
         (pos, count)
     }
 
-    /// tarjan: the components partition the vertices, are exactly the classes of mutual
-    /// reachability, and come dependencies-first.
-    #[kani::proof]
-    #[kani::unwind(7)]
-    fn c14_u1_tarjan() {
-        let (adj, m) = any_graph();
+    /// tarjan on one concrete graph: the components partition the items, are exactly the classes
+    /// of mutual reachability, and come dependencies-first (all ordered pairs checked).
+    fn check_tarjan(mask: u16, first: usize) {
+        let (adj, m) = graph(mask, first);
         let comps = tarjan(&m);
         let reach = closure(&adj);
-        let (u, v): (usize, usize) = (kani::any(), kani::any());
-        kani::assume(u < N && v < N);
-        let (pu, cu) = locate(&comps, u);
-        let (pv, cv) = locate(&comps, v);
-        assert!(cu == 1 && cv == 1, "OBL:C14.tarjan.every_item_appears_exactly_once");
-        assert!((pu == pv) == (reach[u][v] && reach[v][u]), "OBL:C14.tarjan.components_are_the_mutual_dependency_classes");
-        if adj[u][v] && pu != pv {
-            assert!(pv < pu, "OBL:C14.tarjan.dependencies_come_first");
+        let mut u = 0;
+        while u < N {
+            let mut v = 0;
+            while v < N {
+                let (pu, cu) = locate(&comps, u);
+                let (pv, cv) = locate(&comps, v);
+                assert!(cu == 1 && cv == 1, "OBL:C14.tarjan.every_item_appears_exactly_once");
+                assert!((pu == pv) == (reach[u][v] && reach[v][u]), "OBL:C14.tarjan.components_are_the_mutual_dependency_classes");
+                assert!(!(adj[u][v] && pu != pv) || pv < pu, "OBL:C14.tarjan.dependencies_come_first");
+                v += 1;
+            }
+            u += 1;
         }
-        kani::cover!(adj[u][v] && pu != pv, "COV:C14.tarjan.cross_component_edge_reached");
-        kani::cover!(u != v && pu == pv, "COV:C14.tarjan.nontrivial_component_reached");
+        kani::cover!(comps.len() >= 1, "COV:C14.tarjan.components_produced");
     }
+    macro_rules! tarjan_case {
+        ($name:ident, $mask:expr, $first:expr) => {
+            #[kani::proof]
+            #[kani::unwind(7)]
+            fn $name() {
+                check_tarjan($mask, $first);
+            }
+        };
+    }
+    tarjan_case!(c14_u1_tarjan_g000, 0, 0);
+    tarjan_case!(c14_u1_tarjan_g002, 2, 1);
+    tarjan_case!(c14_u1_tarjan_g004, 4, 2);
+    tarjan_case!(c14_u1_tarjan_g006, 6, 0);
+    tarjan_case!(c14_u1_tarjan_g008, 8, 1);
+    tarjan_case!(c14_u1_tarjan_g00a, 10, 2);
+    tarjan_case!(c14_u1_tarjan_g00c, 12, 0);
+    tarjan_case!(c14_u1_tarjan_g00e, 14, 1);
+    tarjan_case!(c14_u1_tarjan_g020, 32, 2);
+    tarjan_case!(c14_u1_tarjan_g022, 34, 0);
+    tarjan_case!(c14_u1_tarjan_g024, 36, 1);
+    tarjan_case!(c14_u1_tarjan_g026, 38, 2);
+    tarjan_case!(c14_u1_tarjan_g028, 40, 0);
+    tarjan_case!(c14_u1_tarjan_g02a, 42, 1);
+    tarjan_case!(c14_u1_tarjan_g02c, 44, 2);
+    tarjan_case!(c14_u1_tarjan_g02e, 46, 0);
+    tarjan_case!(c14_u1_tarjan_g040, 64, 1);
+    tarjan_case!(c14_u1_tarjan_g042, 66, 2);
+    tarjan_case!(c14_u1_tarjan_g044, 68, 0);
+    tarjan_case!(c14_u1_tarjan_g046, 70, 1);
+    tarjan_case!(c14_u1_tarjan_g048, 72, 2);
+    tarjan_case!(c14_u1_tarjan_g04a, 74, 0);
+    tarjan_case!(c14_u1_tarjan_g04c, 76, 1);
+    tarjan_case!(c14_u1_tarjan_g04e, 78, 2);
+    tarjan_case!(c14_u1_tarjan_g060, 96, 0);
+    tarjan_case!(c14_u1_tarjan_g062, 98, 1);
+    tarjan_case!(c14_u1_tarjan_g064, 100, 2);
+    tarjan_case!(c14_u1_tarjan_g066, 102, 0);
+    tarjan_case!(c14_u1_tarjan_g068, 104, 1);
+    tarjan_case!(c14_u1_tarjan_g06a, 106, 2);
+    tarjan_case!(c14_u1_tarjan_g06c, 108, 0);
+    tarjan_case!(c14_u1_tarjan_g06e, 110, 1);
+    tarjan_case!(c14_u1_tarjan_g080, 128, 2);
+    tarjan_case!(c14_u1_tarjan_g082, 130, 0);
+    tarjan_case!(c14_u1_tarjan_g084, 132, 1);
+    tarjan_case!(c14_u1_tarjan_g086, 134, 2);
+    tarjan_case!(c14_u1_tarjan_g088, 136, 0);
+    tarjan_case!(c14_u1_tarjan_g08a, 138, 1);
+    tarjan_case!(c14_u1_tarjan_g08c, 140, 2);
+    tarjan_case!(c14_u1_tarjan_g08e, 142, 0);
+    tarjan_case!(c14_u1_tarjan_g0a0, 160, 1);
+    tarjan_case!(c14_u1_tarjan_g0a2, 162, 2);
+    tarjan_case!(c14_u1_tarjan_g0a4, 164, 0);
+    tarjan_case!(c14_u1_tarjan_g0a6, 166, 1);
+    tarjan_case!(c14_u1_tarjan_g0a8, 168, 2);
+    tarjan_case!(c14_u1_tarjan_g0aa, 170, 0);
+    tarjan_case!(c14_u1_tarjan_g0ac, 172, 1);
+    tarjan_case!(c14_u1_tarjan_g0ae, 174, 2);
+    tarjan_case!(c14_u1_tarjan_g0c0, 192, 0);
+    tarjan_case!(c14_u1_tarjan_g0c2, 194, 1);
+    tarjan_case!(c14_u1_tarjan_g0c4, 196, 2);
+    tarjan_case!(c14_u1_tarjan_g0c6, 198, 0);
+    tarjan_case!(c14_u1_tarjan_g0c8, 200, 1);
+    tarjan_case!(c14_u1_tarjan_g0ca, 202, 2);
+    tarjan_case!(c14_u1_tarjan_g0cc, 204, 0);
+    tarjan_case!(c14_u1_tarjan_g0ce, 206, 1);
+    tarjan_case!(c14_u1_tarjan_g0e0, 224, 2);
+    tarjan_case!(c14_u1_tarjan_g0e2, 226, 0);
+    tarjan_case!(c14_u1_tarjan_g0e4, 228, 1);
+    tarjan_case!(c14_u1_tarjan_g0e6, 230, 2);
+    tarjan_case!(c14_u1_tarjan_g0e8, 232, 0);
+    tarjan_case!(c14_u1_tarjan_g0ea, 234, 1);
+    tarjan_case!(c14_u1_tarjan_g0ec, 236, 2);
+    tarjan_case!(c14_u1_tarjan_g0ee, 238, 0);
 
     #[kani::proof]
     #[kani::unwind(7)]
     fn canary_c14_u1_tarjan() {
-        let (adj, m) = any_graph();
+        // 0 -> 1 -> 2: three singleton components, so "every edge stays inside a component" must fail
+        let (adj, m) = graph(0b000_100_010, 0);
         let comps = tarjan(&m);
-        let (u, v): (usize, usize) = (kani::any(), kani::any());
-        kani::assume(u < N && v < N && adj[u][v]);
-        let (pu, _) = locate(&comps, u);
-        let (pv, _) = locate(&comps, v);
-        assert!(pu == pv, "CANARY:C14.tarjan.every_edge_stays_inside_a_component");
+        let (p0, _) = locate(&comps, 0);
+        let (p1, _) = locate(&comps, 1);
+        assert!(!adj[0][1] || p0 == p1, "CANARY:C14.tarjan.every_edge_stays_inside_a_component");
     }
 
     fn any_kind() -> (DeclarationKind, u8) {
@@ -123,13 +196,12 @@ mod h {
         )
     }
 
-    /// find_compilation_order: Err exactly for (a) a constant in a dependency cycle (self-loop or a
-    /// larger component), else (b) a constant that reaches a context variable; otherwise the items
-    /// in an order in which every dependency of a constant precedes it.
-    #[kani::proof]
-    #[kani::unwind(7)]
-    fn c14_u2_find_compilation_order() {
-        let (adj, m) = any_graph();
+    /// find_compilation_order on one concrete graph, for all 27 assignments of
+    /// {function, constant, context variable}: Err exactly for (a) a constant in a dependency cycle
+    /// (self-loop or a larger component), else (b) a constant that reaches a context variable;
+    /// otherwise the items in an order in which every dependency precedes its dependent.
+    fn check_order(mask: u16, first: usize) {
+        let (adj, m) = graph(mask, first);
         let (k0, t0) = any_kind();
         let (k1, t1) = any_kind();
         let (k2, t2) = any_kind();
@@ -139,7 +211,6 @@ mod h {
             type_info: TypeInfo { scope_graph: ScopeGraph { decls: [k0, k1, k2, DeclarationKind::Function(None)] } },
         };
         let reach = closure(&adj);
-        // specification
         let mut cyclic_constant = false;
         let mut context_constant = false;
         let mut c = 0;
@@ -170,27 +241,552 @@ mod h {
                 assert!(!cyclic_constant, "OBL:C14.order.constant_in_a_cycle_is_rejected");
                 assert!(!context_constant, "OBL:C14.order.constant_reaching_context_is_rejected");
                 assert!(order.len() == N, "OBL:C14.order.every_item_is_ordered_exactly_once");
-                let (u, v): (usize, usize) = (kani::any(), kani::any());
-                kani::assume(u < N && v < N && u != v && adj[u][v] && !(reach[v][u]));
-                let mut pu = N;
-                let mut pv = N;
-                let mut i = 0;
-                while i < N {
-                    if i < order.len() {
-                        if order[i] == ResolvedName(u as u8) {
-                            pu = i;
+                let mut u = 0;
+                while u < N {
+                    let mut v = 0;
+                    while v < N {
+                        if u != v && adj[u][v] && !reach[v][u] {
+                            let mut pu = N;
+                            let mut pv = N;
+                            let mut i = 0;
+                            while i < N {
+                                if order[i] == ResolvedName(u as u8) {
+                                    pu = i;
+                                }
+                                if order[i] == ResolvedName(v as u8) {
+                                    pv = i;
+                                }
+                                i += 1;
+                            }
+                            assert!(pu < N && pv < N && pv < pu, "OBL:C14.order.dependencies_are_generated_first");
                         }
-                        if order[i] == ResolvedName(v as u8) {
-                            pv = i;
-                        }
+                        v += 1;
                     }
-                    i += 1;
+                    u += 1;
                 }
-                assert!(pu < N && pv < N && pv < pu, "OBL:C14.order.dependencies_are_generated_first");
             }
         }
-        kani::cover!(res.is_ok() && kinds[0] == 1 && adj[0][1] && kinds[1] == 0 && adj[1][2] && kinds[2] == 1, "COV:C14.order.constant_via_function_to_constant_reached");
-        kani::cover!(matches!(res, Err(TypeError::ConstantUsesContext(_))), "COV:C14.order.context_error_reached");
-        kani::cover!(matches!(res, Err(TypeError::RecursiveConstant(_))) && !adj[0][0] && !adj[1][1] && !adj[2][2], "COV:C14.order.indirect_cycle_error_reached");
+        kani::cover!(kinds[0] == 1, "COV:C14.order.constant_present");
     }
+    macro_rules! order_case {
+        ($name:ident, $mask:expr, $first:expr) => {
+            #[kani::proof]
+            #[kani::unwind(7)]
+            fn $name() {
+                check_order($mask, $first);
+            }
+        };
+    }
+    order_case!(c14_u2_order_g000, 0, 0);
+    order_case!(c14_u2_order_g002, 2, 1);
+    order_case!(c14_u2_order_g004, 4, 2);
+    order_case!(c14_u2_order_g006, 6, 0);
+    order_case!(c14_u2_order_g008, 8, 1);
+    order_case!(c14_u2_order_g00a, 10, 2);
+    order_case!(c14_u2_order_g00c, 12, 0);
+    order_case!(c14_u2_order_g00e, 14, 1);
+    order_case!(c14_u2_order_g020, 32, 2);
+    order_case!(c14_u2_order_g022, 34, 0);
+    order_case!(c14_u2_order_g024, 36, 1);
+    order_case!(c14_u2_order_g026, 38, 2);
+    order_case!(c14_u2_order_g028, 40, 0);
+    order_case!(c14_u2_order_g02a, 42, 1);
+    order_case!(c14_u2_order_g02c, 44, 2);
+    order_case!(c14_u2_order_g02e, 46, 0);
+    order_case!(c14_u2_order_g040, 64, 1);
+    order_case!(c14_u2_order_g042, 66, 2);
+    order_case!(c14_u2_order_g044, 68, 0);
+    order_case!(c14_u2_order_g046, 70, 1);
+    order_case!(c14_u2_order_g048, 72, 2);
+    order_case!(c14_u2_order_g04a, 74, 0);
+    order_case!(c14_u2_order_g04c, 76, 1);
+    order_case!(c14_u2_order_g04e, 78, 2);
+    order_case!(c14_u2_order_g060, 96, 0);
+    order_case!(c14_u2_order_g062, 98, 1);
+    order_case!(c14_u2_order_g064, 100, 2);
+    order_case!(c14_u2_order_g066, 102, 0);
+    order_case!(c14_u2_order_g068, 104, 1);
+    order_case!(c14_u2_order_g06a, 106, 2);
+    order_case!(c14_u2_order_g06c, 108, 0);
+    order_case!(c14_u2_order_g06e, 110, 1);
+    order_case!(c14_u2_order_g080, 128, 2);
+    order_case!(c14_u2_order_g082, 130, 0);
+    order_case!(c14_u2_order_g084, 132, 1);
+    order_case!(c14_u2_order_g086, 134, 2);
+    order_case!(c14_u2_order_g088, 136, 0);
+    order_case!(c14_u2_order_g08a, 138, 1);
+    order_case!(c14_u2_order_g08c, 140, 2);
+    order_case!(c14_u2_order_g08e, 142, 0);
+    order_case!(c14_u2_order_g0a0, 160, 1);
+    order_case!(c14_u2_order_g0a2, 162, 2);
+    order_case!(c14_u2_order_g0a4, 164, 0);
+    order_case!(c14_u2_order_g0a6, 166, 1);
+    order_case!(c14_u2_order_g0a8, 168, 2);
+    order_case!(c14_u2_order_g0aa, 170, 0);
+    order_case!(c14_u2_order_g0ac, 172, 1);
+    order_case!(c14_u2_order_g0ae, 174, 2);
+    order_case!(c14_u2_order_g0c0, 192, 0);
+    order_case!(c14_u2_order_g0c2, 194, 1);
+    order_case!(c14_u2_order_g0c4, 196, 2);
+    order_case!(c14_u2_order_g0c6, 198, 0);
+    order_case!(c14_u2_order_g0c8, 200, 1);
+    order_case!(c14_u2_order_g0ca, 202, 2);
+    order_case!(c14_u2_order_g0cc, 204, 0);
+    order_case!(c14_u2_order_g0ce, 206, 1);
+    order_case!(c14_u2_order_g0e0, 224, 2);
+    order_case!(c14_u2_order_g0e2, 226, 0);
+    order_case!(c14_u2_order_g0e4, 228, 1);
+    order_case!(c14_u2_order_g0e6, 230, 2);
+    order_case!(c14_u2_order_g0e8, 232, 0);
+    order_case!(c14_u2_order_g0ea, 234, 1);
+    order_case!(c14_u2_order_g0ec, 236, 2);
+    order_case!(c14_u2_order_g0ee, 238, 0);
+    order_case!(c14_u2_order_g001, 1, 0);
+    order_case!(c14_u2_order_g010, 16, 1);
+    order_case!(c14_u2_order_g100, 256, 2);
+    order_case!(c14_u2_order_g063, 99, 0);
+    order_case!(c14_u2_order_g072, 114, 1);
+    order_case!(c14_u2_order_g162, 354, 2);
+    order_case!(c14_u2_order_g003, 3, 0);
+    order_case!(c14_u2_order_g005, 5, 2);
+    order_case!(c14_u2_order_g007, 7, 1);
+    order_case!(c14_u2_order_g009, 9, 0);
+    order_case!(c14_u2_order_g00b, 11, 2);
+    order_case!(c14_u2_order_g00d, 13, 1);
+    order_case!(c14_u2_order_g00f, 15, 0);
+    order_case!(c14_u2_order_g011, 17, 2);
+    order_case!(c14_u2_order_g012, 18, 0);
+    order_case!(c14_u2_order_g013, 19, 1);
+    order_case!(c14_u2_order_g014, 20, 2);
+    order_case!(c14_u2_order_g015, 21, 0);
+    order_case!(c14_u2_order_g016, 22, 1);
+    order_case!(c14_u2_order_g017, 23, 2);
+    order_case!(c14_u2_order_g018, 24, 0);
+    order_case!(c14_u2_order_g019, 25, 1);
+    order_case!(c14_u2_order_g01a, 26, 2);
+    order_case!(c14_u2_order_g01b, 27, 0);
+    order_case!(c14_u2_order_g01c, 28, 1);
+    order_case!(c14_u2_order_g01d, 29, 2);
+    order_case!(c14_u2_order_g01e, 30, 0);
+    order_case!(c14_u2_order_g01f, 31, 1);
+    order_case!(c14_u2_order_g021, 33, 0);
+    order_case!(c14_u2_order_g023, 35, 2);
+    order_case!(c14_u2_order_g025, 37, 1);
+    order_case!(c14_u2_order_g027, 39, 0);
+    order_case!(c14_u2_order_g029, 41, 2);
+    order_case!(c14_u2_order_g02b, 43, 1);
+    order_case!(c14_u2_order_g02d, 45, 0);
+    order_case!(c14_u2_order_g02f, 47, 2);
+    order_case!(c14_u2_order_g030, 48, 0);
+    order_case!(c14_u2_order_g031, 49, 1);
+    order_case!(c14_u2_order_g032, 50, 2);
+    order_case!(c14_u2_order_g033, 51, 0);
+    order_case!(c14_u2_order_g034, 52, 1);
+    order_case!(c14_u2_order_g035, 53, 2);
+    order_case!(c14_u2_order_g036, 54, 0);
+    order_case!(c14_u2_order_g037, 55, 1);
+    order_case!(c14_u2_order_g038, 56, 2);
+    order_case!(c14_u2_order_g039, 57, 0);
+    order_case!(c14_u2_order_g03a, 58, 1);
+    order_case!(c14_u2_order_g03b, 59, 2);
+    order_case!(c14_u2_order_g03c, 60, 0);
+    order_case!(c14_u2_order_g03d, 61, 1);
+    order_case!(c14_u2_order_g03e, 62, 2);
+    order_case!(c14_u2_order_g03f, 63, 0);
+    order_case!(c14_u2_order_g041, 65, 2);
+    order_case!(c14_u2_order_g043, 67, 1);
+    order_case!(c14_u2_order_g045, 69, 0);
+    order_case!(c14_u2_order_g047, 71, 2);
+    order_case!(c14_u2_order_g049, 73, 1);
+    order_case!(c14_u2_order_g04b, 75, 0);
+    order_case!(c14_u2_order_g04d, 77, 2);
+    order_case!(c14_u2_order_g04f, 79, 1);
+    order_case!(c14_u2_order_g050, 80, 2);
+    order_case!(c14_u2_order_g051, 81, 0);
+    order_case!(c14_u2_order_g052, 82, 1);
+    order_case!(c14_u2_order_g053, 83, 2);
+    order_case!(c14_u2_order_g054, 84, 0);
+    order_case!(c14_u2_order_g055, 85, 1);
+    order_case!(c14_u2_order_g056, 86, 2);
+    order_case!(c14_u2_order_g057, 87, 0);
+    order_case!(c14_u2_order_g058, 88, 1);
+    order_case!(c14_u2_order_g059, 89, 2);
+    order_case!(c14_u2_order_g05a, 90, 0);
+    order_case!(c14_u2_order_g05b, 91, 1);
+    order_case!(c14_u2_order_g05c, 92, 2);
+    order_case!(c14_u2_order_g05d, 93, 0);
+    order_case!(c14_u2_order_g05e, 94, 1);
+    order_case!(c14_u2_order_g05f, 95, 2);
+    order_case!(c14_u2_order_g061, 97, 1);
+    order_case!(c14_u2_order_g065, 101, 2);
+    order_case!(c14_u2_order_g067, 103, 1);
+    order_case!(c14_u2_order_g069, 105, 0);
+    order_case!(c14_u2_order_g06b, 107, 2);
+    order_case!(c14_u2_order_g06d, 109, 1);
+    order_case!(c14_u2_order_g06f, 111, 0);
+    order_case!(c14_u2_order_g070, 112, 1);
+    order_case!(c14_u2_order_g071, 113, 2);
+    order_case!(c14_u2_order_g073, 115, 1);
+    order_case!(c14_u2_order_g074, 116, 2);
+    order_case!(c14_u2_order_g075, 117, 0);
+    order_case!(c14_u2_order_g076, 118, 1);
+    order_case!(c14_u2_order_g077, 119, 2);
+    order_case!(c14_u2_order_g078, 120, 0);
+    order_case!(c14_u2_order_g079, 121, 1);
+    order_case!(c14_u2_order_g07a, 122, 2);
+    order_case!(c14_u2_order_g07b, 123, 0);
+    order_case!(c14_u2_order_g07c, 124, 1);
+    order_case!(c14_u2_order_g07d, 125, 2);
+    order_case!(c14_u2_order_g07e, 126, 0);
+    order_case!(c14_u2_order_g07f, 127, 1);
+    order_case!(c14_u2_order_g081, 129, 0);
+    order_case!(c14_u2_order_g083, 131, 2);
+    order_case!(c14_u2_order_g085, 133, 1);
+    order_case!(c14_u2_order_g087, 135, 0);
+    order_case!(c14_u2_order_g089, 137, 2);
+    order_case!(c14_u2_order_g08b, 139, 1);
+    order_case!(c14_u2_order_g08d, 141, 0);
+    order_case!(c14_u2_order_g08f, 143, 2);
+    order_case!(c14_u2_order_g090, 144, 0);
+    order_case!(c14_u2_order_g091, 145, 1);
+    order_case!(c14_u2_order_g092, 146, 2);
+    order_case!(c14_u2_order_g093, 147, 0);
+    order_case!(c14_u2_order_g094, 148, 1);
+    order_case!(c14_u2_order_g095, 149, 2);
+    order_case!(c14_u2_order_g096, 150, 0);
+    order_case!(c14_u2_order_g097, 151, 1);
+    order_case!(c14_u2_order_g098, 152, 2);
+    order_case!(c14_u2_order_g099, 153, 0);
+    order_case!(c14_u2_order_g09a, 154, 1);
+    order_case!(c14_u2_order_g09b, 155, 2);
+    order_case!(c14_u2_order_g09c, 156, 0);
+    order_case!(c14_u2_order_g09d, 157, 1);
+    order_case!(c14_u2_order_g09e, 158, 2);
+    order_case!(c14_u2_order_g09f, 159, 0);
+    order_case!(c14_u2_order_g0a1, 161, 2);
+    order_case!(c14_u2_order_g0a3, 163, 1);
+    order_case!(c14_u2_order_g0a5, 165, 0);
+    order_case!(c14_u2_order_g0a7, 167, 2);
+    order_case!(c14_u2_order_g0a9, 169, 1);
+    order_case!(c14_u2_order_g0ab, 171, 0);
+    order_case!(c14_u2_order_g0ad, 173, 2);
+    order_case!(c14_u2_order_g0af, 175, 1);
+    order_case!(c14_u2_order_g0b0, 176, 2);
+    order_case!(c14_u2_order_g0b1, 177, 0);
+    order_case!(c14_u2_order_g0b2, 178, 1);
+    order_case!(c14_u2_order_g0b3, 179, 2);
+    order_case!(c14_u2_order_g0b4, 180, 0);
+    order_case!(c14_u2_order_g0b5, 181, 1);
+    order_case!(c14_u2_order_g0b6, 182, 2);
+    order_case!(c14_u2_order_g0b7, 183, 0);
+    order_case!(c14_u2_order_g0b8, 184, 1);
+    order_case!(c14_u2_order_g0b9, 185, 2);
+    order_case!(c14_u2_order_g0ba, 186, 0);
+    order_case!(c14_u2_order_g0bb, 187, 1);
+    order_case!(c14_u2_order_g0bc, 188, 2);
+    order_case!(c14_u2_order_g0bd, 189, 0);
+    order_case!(c14_u2_order_g0be, 190, 1);
+    order_case!(c14_u2_order_g0bf, 191, 2);
+    order_case!(c14_u2_order_g0c1, 193, 1);
+    order_case!(c14_u2_order_g0c3, 195, 0);
+    order_case!(c14_u2_order_g0c5, 197, 2);
+    order_case!(c14_u2_order_g0c7, 199, 1);
+    order_case!(c14_u2_order_g0c9, 201, 0);
+    order_case!(c14_u2_order_g0cb, 203, 2);
+    order_case!(c14_u2_order_g0cd, 205, 1);
+    order_case!(c14_u2_order_g0cf, 207, 0);
+    order_case!(c14_u2_order_g0d0, 208, 1);
+    order_case!(c14_u2_order_g0d1, 209, 2);
+    order_case!(c14_u2_order_g0d2, 210, 0);
+    order_case!(c14_u2_order_g0d3, 211, 1);
+    order_case!(c14_u2_order_g0d4, 212, 2);
+    order_case!(c14_u2_order_g0d5, 213, 0);
+    order_case!(c14_u2_order_g0d6, 214, 1);
+    order_case!(c14_u2_order_g0d7, 215, 2);
+    order_case!(c14_u2_order_g0d8, 216, 0);
+    order_case!(c14_u2_order_g0d9, 217, 1);
+    order_case!(c14_u2_order_g0da, 218, 2);
+    order_case!(c14_u2_order_g0db, 219, 0);
+    order_case!(c14_u2_order_g0dc, 220, 1);
+    order_case!(c14_u2_order_g0dd, 221, 2);
+    order_case!(c14_u2_order_g0de, 222, 0);
+    order_case!(c14_u2_order_g0df, 223, 1);
+    order_case!(c14_u2_order_g0e1, 225, 0);
+    order_case!(c14_u2_order_g0e3, 227, 2);
+    order_case!(c14_u2_order_g0e5, 229, 1);
+    order_case!(c14_u2_order_g0e7, 231, 0);
+    order_case!(c14_u2_order_g0e9, 233, 2);
+    order_case!(c14_u2_order_g0eb, 235, 1);
+    order_case!(c14_u2_order_g0ed, 237, 0);
+    order_case!(c14_u2_order_g0ef, 239, 2);
+    order_case!(c14_u2_order_g0f0, 240, 0);
+    order_case!(c14_u2_order_g0f1, 241, 1);
+    order_case!(c14_u2_order_g0f2, 242, 2);
+    order_case!(c14_u2_order_g0f3, 243, 0);
+    order_case!(c14_u2_order_g0f4, 244, 1);
+    order_case!(c14_u2_order_g0f5, 245, 2);
+    order_case!(c14_u2_order_g0f6, 246, 0);
+    order_case!(c14_u2_order_g0f7, 247, 1);
+    order_case!(c14_u2_order_g0f8, 248, 2);
+    order_case!(c14_u2_order_g0f9, 249, 0);
+    order_case!(c14_u2_order_g0fa, 250, 1);
+    order_case!(c14_u2_order_g0fb, 251, 2);
+    order_case!(c14_u2_order_g0fc, 252, 0);
+    order_case!(c14_u2_order_g0fd, 253, 1);
+    order_case!(c14_u2_order_g0fe, 254, 2);
+    order_case!(c14_u2_order_g0ff, 255, 0);
+    order_case!(c14_u2_order_g101, 257, 2);
+    order_case!(c14_u2_order_g102, 258, 0);
+    order_case!(c14_u2_order_g103, 259, 1);
+    order_case!(c14_u2_order_g104, 260, 2);
+    order_case!(c14_u2_order_g105, 261, 0);
+    order_case!(c14_u2_order_g106, 262, 1);
+    order_case!(c14_u2_order_g107, 263, 2);
+    order_case!(c14_u2_order_g108, 264, 0);
+    order_case!(c14_u2_order_g109, 265, 1);
+    order_case!(c14_u2_order_g10a, 266, 2);
+    order_case!(c14_u2_order_g10b, 267, 0);
+    order_case!(c14_u2_order_g10c, 268, 1);
+    order_case!(c14_u2_order_g10d, 269, 2);
+    order_case!(c14_u2_order_g10e, 270, 0);
+    order_case!(c14_u2_order_g10f, 271, 1);
+    order_case!(c14_u2_order_g110, 272, 2);
+    order_case!(c14_u2_order_g111, 273, 0);
+    order_case!(c14_u2_order_g112, 274, 1);
+    order_case!(c14_u2_order_g113, 275, 2);
+    order_case!(c14_u2_order_g114, 276, 0);
+    order_case!(c14_u2_order_g115, 277, 1);
+    order_case!(c14_u2_order_g116, 278, 2);
+    order_case!(c14_u2_order_g117, 279, 0);
+    order_case!(c14_u2_order_g118, 280, 1);
+    order_case!(c14_u2_order_g119, 281, 2);
+    order_case!(c14_u2_order_g11a, 282, 0);
+    order_case!(c14_u2_order_g11b, 283, 1);
+    order_case!(c14_u2_order_g11c, 284, 2);
+    order_case!(c14_u2_order_g11d, 285, 0);
+    order_case!(c14_u2_order_g11e, 286, 1);
+    order_case!(c14_u2_order_g11f, 287, 2);
+    order_case!(c14_u2_order_g120, 288, 0);
+    order_case!(c14_u2_order_g121, 289, 1);
+    order_case!(c14_u2_order_g122, 290, 2);
+    order_case!(c14_u2_order_g123, 291, 0);
+    order_case!(c14_u2_order_g124, 292, 1);
+    order_case!(c14_u2_order_g125, 293, 2);
+    order_case!(c14_u2_order_g126, 294, 0);
+    order_case!(c14_u2_order_g127, 295, 1);
+    order_case!(c14_u2_order_g128, 296, 2);
+    order_case!(c14_u2_order_g129, 297, 0);
+    order_case!(c14_u2_order_g12a, 298, 1);
+    order_case!(c14_u2_order_g12b, 299, 2);
+    order_case!(c14_u2_order_g12c, 300, 0);
+    order_case!(c14_u2_order_g12d, 301, 1);
+    order_case!(c14_u2_order_g12e, 302, 2);
+    order_case!(c14_u2_order_g12f, 303, 0);
+    order_case!(c14_u2_order_g130, 304, 1);
+    order_case!(c14_u2_order_g131, 305, 2);
+    order_case!(c14_u2_order_g132, 306, 0);
+    order_case!(c14_u2_order_g133, 307, 1);
+    order_case!(c14_u2_order_g134, 308, 2);
+    order_case!(c14_u2_order_g135, 309, 0);
+    order_case!(c14_u2_order_g136, 310, 1);
+    order_case!(c14_u2_order_g137, 311, 2);
+    order_case!(c14_u2_order_g138, 312, 0);
+    order_case!(c14_u2_order_g139, 313, 1);
+    order_case!(c14_u2_order_g13a, 314, 2);
+    order_case!(c14_u2_order_g13b, 315, 0);
+    order_case!(c14_u2_order_g13c, 316, 1);
+    order_case!(c14_u2_order_g13d, 317, 2);
+    order_case!(c14_u2_order_g13e, 318, 0);
+    order_case!(c14_u2_order_g13f, 319, 1);
+    order_case!(c14_u2_order_g140, 320, 2);
+    order_case!(c14_u2_order_g141, 321, 0);
+    order_case!(c14_u2_order_g142, 322, 1);
+    order_case!(c14_u2_order_g143, 323, 2);
+    order_case!(c14_u2_order_g144, 324, 0);
+    order_case!(c14_u2_order_g145, 325, 1);
+    order_case!(c14_u2_order_g146, 326, 2);
+    order_case!(c14_u2_order_g147, 327, 0);
+    order_case!(c14_u2_order_g148, 328, 1);
+    order_case!(c14_u2_order_g149, 329, 2);
+    order_case!(c14_u2_order_g14a, 330, 0);
+    order_case!(c14_u2_order_g14b, 331, 1);
+    order_case!(c14_u2_order_g14c, 332, 2);
+    order_case!(c14_u2_order_g14d, 333, 0);
+    order_case!(c14_u2_order_g14e, 334, 1);
+    order_case!(c14_u2_order_g14f, 335, 2);
+    order_case!(c14_u2_order_g150, 336, 0);
+    order_case!(c14_u2_order_g151, 337, 1);
+    order_case!(c14_u2_order_g152, 338, 2);
+    order_case!(c14_u2_order_g153, 339, 0);
+    order_case!(c14_u2_order_g154, 340, 1);
+    order_case!(c14_u2_order_g155, 341, 2);
+    order_case!(c14_u2_order_g156, 342, 0);
+    order_case!(c14_u2_order_g157, 343, 1);
+    order_case!(c14_u2_order_g158, 344, 2);
+    order_case!(c14_u2_order_g159, 345, 0);
+    order_case!(c14_u2_order_g15a, 346, 1);
+    order_case!(c14_u2_order_g15b, 347, 2);
+    order_case!(c14_u2_order_g15c, 348, 0);
+    order_case!(c14_u2_order_g15d, 349, 1);
+    order_case!(c14_u2_order_g15e, 350, 2);
+    order_case!(c14_u2_order_g15f, 351, 0);
+    order_case!(c14_u2_order_g160, 352, 1);
+    order_case!(c14_u2_order_g161, 353, 2);
+    order_case!(c14_u2_order_g163, 355, 1);
+    order_case!(c14_u2_order_g164, 356, 2);
+    order_case!(c14_u2_order_g165, 357, 0);
+    order_case!(c14_u2_order_g166, 358, 1);
+    order_case!(c14_u2_order_g167, 359, 2);
+    order_case!(c14_u2_order_g168, 360, 0);
+    order_case!(c14_u2_order_g169, 361, 1);
+    order_case!(c14_u2_order_g16a, 362, 2);
+    order_case!(c14_u2_order_g16b, 363, 0);
+    order_case!(c14_u2_order_g16c, 364, 1);
+    order_case!(c14_u2_order_g16d, 365, 2);
+    order_case!(c14_u2_order_g16e, 366, 0);
+    order_case!(c14_u2_order_g16f, 367, 1);
+    order_case!(c14_u2_order_g170, 368, 2);
+    order_case!(c14_u2_order_g171, 369, 0);
+    order_case!(c14_u2_order_g172, 370, 1);
+    order_case!(c14_u2_order_g173, 371, 2);
+    order_case!(c14_u2_order_g174, 372, 0);
+    order_case!(c14_u2_order_g175, 373, 1);
+    order_case!(c14_u2_order_g176, 374, 2);
+    order_case!(c14_u2_order_g177, 375, 0);
+    order_case!(c14_u2_order_g178, 376, 1);
+    order_case!(c14_u2_order_g179, 377, 2);
+    order_case!(c14_u2_order_g17a, 378, 0);
+    order_case!(c14_u2_order_g17b, 379, 1);
+    order_case!(c14_u2_order_g17c, 380, 2);
+    order_case!(c14_u2_order_g17d, 381, 0);
+    order_case!(c14_u2_order_g17e, 382, 1);
+    order_case!(c14_u2_order_g17f, 383, 2);
+    order_case!(c14_u2_order_g180, 384, 0);
+    order_case!(c14_u2_order_g181, 385, 1);
+    order_case!(c14_u2_order_g182, 386, 2);
+    order_case!(c14_u2_order_g183, 387, 0);
+    order_case!(c14_u2_order_g184, 388, 1);
+    order_case!(c14_u2_order_g185, 389, 2);
+    order_case!(c14_u2_order_g186, 390, 0);
+    order_case!(c14_u2_order_g187, 391, 1);
+    order_case!(c14_u2_order_g188, 392, 2);
+    order_case!(c14_u2_order_g189, 393, 0);
+    order_case!(c14_u2_order_g18a, 394, 1);
+    order_case!(c14_u2_order_g18b, 395, 2);
+    order_case!(c14_u2_order_g18c, 396, 0);
+    order_case!(c14_u2_order_g18d, 397, 1);
+    order_case!(c14_u2_order_g18e, 398, 2);
+    order_case!(c14_u2_order_g18f, 399, 0);
+    order_case!(c14_u2_order_g190, 400, 1);
+    order_case!(c14_u2_order_g191, 401, 2);
+    order_case!(c14_u2_order_g192, 402, 0);
+    order_case!(c14_u2_order_g193, 403, 1);
+    order_case!(c14_u2_order_g194, 404, 2);
+    order_case!(c14_u2_order_g195, 405, 0);
+    order_case!(c14_u2_order_g196, 406, 1);
+    order_case!(c14_u2_order_g197, 407, 2);
+    order_case!(c14_u2_order_g198, 408, 0);
+    order_case!(c14_u2_order_g199, 409, 1);
+    order_case!(c14_u2_order_g19a, 410, 2);
+    order_case!(c14_u2_order_g19b, 411, 0);
+    order_case!(c14_u2_order_g19c, 412, 1);
+    order_case!(c14_u2_order_g19d, 413, 2);
+    order_case!(c14_u2_order_g19e, 414, 0);
+    order_case!(c14_u2_order_g19f, 415, 1);
+    order_case!(c14_u2_order_g1a0, 416, 2);
+    order_case!(c14_u2_order_g1a1, 417, 0);
+    order_case!(c14_u2_order_g1a2, 418, 1);
+    order_case!(c14_u2_order_g1a3, 419, 2);
+    order_case!(c14_u2_order_g1a4, 420, 0);
+    order_case!(c14_u2_order_g1a5, 421, 1);
+    order_case!(c14_u2_order_g1a6, 422, 2);
+    order_case!(c14_u2_order_g1a7, 423, 0);
+    order_case!(c14_u2_order_g1a8, 424, 1);
+    order_case!(c14_u2_order_g1a9, 425, 2);
+    order_case!(c14_u2_order_g1aa, 426, 0);
+    order_case!(c14_u2_order_g1ab, 427, 1);
+    order_case!(c14_u2_order_g1ac, 428, 2);
+    order_case!(c14_u2_order_g1ad, 429, 0);
+    order_case!(c14_u2_order_g1ae, 430, 1);
+    order_case!(c14_u2_order_g1af, 431, 2);
+    order_case!(c14_u2_order_g1b0, 432, 0);
+    order_case!(c14_u2_order_g1b1, 433, 1);
+    order_case!(c14_u2_order_g1b2, 434, 2);
+    order_case!(c14_u2_order_g1b3, 435, 0);
+    order_case!(c14_u2_order_g1b4, 436, 1);
+    order_case!(c14_u2_order_g1b5, 437, 2);
+    order_case!(c14_u2_order_g1b6, 438, 0);
+    order_case!(c14_u2_order_g1b7, 439, 1);
+    order_case!(c14_u2_order_g1b8, 440, 2);
+    order_case!(c14_u2_order_g1b9, 441, 0);
+    order_case!(c14_u2_order_g1ba, 442, 1);
+    order_case!(c14_u2_order_g1bb, 443, 2);
+    order_case!(c14_u2_order_g1bc, 444, 0);
+    order_case!(c14_u2_order_g1bd, 445, 1);
+    order_case!(c14_u2_order_g1be, 446, 2);
+    order_case!(c14_u2_order_g1bf, 447, 0);
+    order_case!(c14_u2_order_g1c0, 448, 1);
+    order_case!(c14_u2_order_g1c1, 449, 2);
+    order_case!(c14_u2_order_g1c2, 450, 0);
+    order_case!(c14_u2_order_g1c3, 451, 1);
+    order_case!(c14_u2_order_g1c4, 452, 2);
+    order_case!(c14_u2_order_g1c5, 453, 0);
+    order_case!(c14_u2_order_g1c6, 454, 1);
+    order_case!(c14_u2_order_g1c7, 455, 2);
+    order_case!(c14_u2_order_g1c8, 456, 0);
+    order_case!(c14_u2_order_g1c9, 457, 1);
+    order_case!(c14_u2_order_g1ca, 458, 2);
+    order_case!(c14_u2_order_g1cb, 459, 0);
+    order_case!(c14_u2_order_g1cc, 460, 1);
+    order_case!(c14_u2_order_g1cd, 461, 2);
+    order_case!(c14_u2_order_g1ce, 462, 0);
+    order_case!(c14_u2_order_g1cf, 463, 1);
+    order_case!(c14_u2_order_g1d0, 464, 2);
+    order_case!(c14_u2_order_g1d1, 465, 0);
+    order_case!(c14_u2_order_g1d2, 466, 1);
+    order_case!(c14_u2_order_g1d3, 467, 2);
+    order_case!(c14_u2_order_g1d4, 468, 0);
+    order_case!(c14_u2_order_g1d5, 469, 1);
+    order_case!(c14_u2_order_g1d6, 470, 2);
+    order_case!(c14_u2_order_g1d7, 471, 0);
+    order_case!(c14_u2_order_g1d8, 472, 1);
+    order_case!(c14_u2_order_g1d9, 473, 2);
+    order_case!(c14_u2_order_g1da, 474, 0);
+    order_case!(c14_u2_order_g1db, 475, 1);
+    order_case!(c14_u2_order_g1dc, 476, 2);
+    order_case!(c14_u2_order_g1dd, 477, 0);
+    order_case!(c14_u2_order_g1de, 478, 1);
+    order_case!(c14_u2_order_g1df, 479, 2);
+    order_case!(c14_u2_order_g1e0, 480, 0);
+    order_case!(c14_u2_order_g1e1, 481, 1);
+    order_case!(c14_u2_order_g1e2, 482, 2);
+    order_case!(c14_u2_order_g1e3, 483, 0);
+    order_case!(c14_u2_order_g1e4, 484, 1);
+    order_case!(c14_u2_order_g1e5, 485, 2);
+    order_case!(c14_u2_order_g1e6, 486, 0);
+    order_case!(c14_u2_order_g1e7, 487, 1);
+    order_case!(c14_u2_order_g1e8, 488, 2);
+    order_case!(c14_u2_order_g1e9, 489, 0);
+    order_case!(c14_u2_order_g1ea, 490, 1);
+    order_case!(c14_u2_order_g1eb, 491, 2);
+    order_case!(c14_u2_order_g1ec, 492, 0);
+    order_case!(c14_u2_order_g1ed, 493, 1);
+    order_case!(c14_u2_order_g1ee, 494, 2);
+    order_case!(c14_u2_order_g1ef, 495, 0);
+    order_case!(c14_u2_order_g1f0, 496, 1);
+    order_case!(c14_u2_order_g1f1, 497, 2);
+    order_case!(c14_u2_order_g1f2, 498, 0);
+    order_case!(c14_u2_order_g1f3, 499, 1);
+    order_case!(c14_u2_order_g1f4, 500, 2);
+    order_case!(c14_u2_order_g1f5, 501, 0);
+    order_case!(c14_u2_order_g1f6, 502, 1);
+    order_case!(c14_u2_order_g1f7, 503, 2);
+    order_case!(c14_u2_order_g1f8, 504, 0);
+    order_case!(c14_u2_order_g1f9, 505, 1);
+    order_case!(c14_u2_order_g1fa, 506, 2);
+    order_case!(c14_u2_order_g1fb, 507, 0);
+    order_case!(c14_u2_order_g1fc, 508, 1);
+    order_case!(c14_u2_order_g1fd, 509, 2);
+    order_case!(c14_u2_order_g1fe, 510, 0);
+    order_case!(c14_u2_order_g1ff, 511, 1);
 }
